@@ -374,6 +374,7 @@ func gen(tier string, r *lib.Rand, emit func(string)) {
 			}
 		}
 	}
+	genHist(thorough, nrand, r, emit)
 }
 
 // dedup removes repeated values from an ascending list (the harness's own code).
@@ -566,6 +567,10 @@ func call(c string) (line string, mutated string) {
 		return "ok " + lib.HexList(vecList(verifhook.BigvectorNewBasis(lib.Atoi(f[1]), lib.Atoi(f[2])))), ""
 	case "basisidx":
 		return "ok " + hx(verifhook.BigvectorNewBasis(lib.Atoi(f[1]), lib.Atoi(f[2])).Idx(lib.Atoi(f[3]))), ""
+	case "vhist":
+		return runVhist(f[1]), ""
+	case "lhist":
+		return runLhist(f[1]), ""
 	default:
 		panic("unknown case " + c)
 	}
@@ -576,6 +581,427 @@ func call(c string) (line string, mutated string) {
 func run(c string) string {
 	line, _ := call(c)
 	return line
+}
+
+// ---- call histories: a straight-line program over registers; all registers are read at the end ----
+
+func fmtRegs(regs [][]*big.Int) string {
+	parts := make([]string, len(regs))
+	for i, r := range regs {
+		parts[i] = lib.HexList(r)
+	}
+	return "ok " + strings.Join(parts, "/")
+}
+
+// runVhist executes a vector program with the package's own constructors and operations. Only
+// at the end is every register read (Idx of each coordinate), so a call that disturbs the
+// storage of an earlier value shows up.
+func runVhist(prog string) string {
+	var regs []verifhook.BigVector
+	for _, ins := range strings.Split(prog, ";") {
+		f := strings.Split(ins, ":")
+		a := func(k int) int { return lib.Atoi(f[k]) }
+		switch f[0] {
+		case "new":
+			regs = append(regs, verifhook.BigvectorNew(a(1)))
+		case "basis":
+			regs = append(regs, verifhook.BigvectorNewBasis(a(1), a(2)))
+		case "add":
+			if a(1) >= len(regs) || a(2) >= len(regs) {
+				return "err badreg"
+			}
+			regs = append(regs, verifhook.BigvectorAdd(regs[a(1)], regs[a(2)]))
+		case "lsh":
+			if a(1) >= len(regs) {
+				return "err badreg"
+			}
+			regs = append(regs, verifhook.BigvectorLsh(regs[a(1)], uint(a(2))))
+		case "idx":
+			if a(1) >= len(regs) {
+				return "err badreg"
+			}
+			regs = append(regs, listVec{regs[a(1)].Idx(a(2))}) // keeps the returned pointer
+		default:
+			panic("unknown vhist instruction " + ins)
+		}
+	}
+	out := make([][]*big.Int, len(regs))
+	for i, r := range regs {
+		out[i] = vecList(r)
+	}
+	return fmtRegs(out)
+}
+
+// refVhist: the mathematical value of every register (fresh integers, nothing shared), or the
+// expected panic/error line.
+func refVhist(prog string) ([][]*big.Int, string) {
+	var regs [][]*big.Int
+	for _, ins := range strings.Split(prog, ";") {
+		f := strings.Split(ins, ":")
+		a := func(k int) int { return lib.Atoi(f[k]) }
+		switch f[0] {
+		case "new":
+			v := make([]*big.Int, a(1))
+			for i := range v {
+				v[i] = new(big.Int)
+			}
+			regs = append(regs, v)
+		case "basis":
+			v := make([]*big.Int, a(1))
+			for i := range v {
+				v[i] = new(big.Int)
+				if i == a(2) {
+					v[i].SetInt64(1)
+				}
+			}
+			regs = append(regs, v)
+		case "add":
+			if a(1) >= len(regs) || a(2) >= len(regs) {
+				return nil, "err badreg"
+			}
+			u, w := regs[a(1)], regs[a(2)]
+			if len(u) != len(w) {
+				return nil, "panic lenmismatch"
+			}
+			v := make([]*big.Int, len(u))
+			for i := range v {
+				v[i] = new(big.Int).Add(u[i], w[i])
+			}
+			regs = append(regs, v)
+		case "lsh":
+			if a(1) >= len(regs) {
+				return nil, "err badreg"
+			}
+			u := regs[a(1)]
+			v := make([]*big.Int, len(u))
+			for i := range v {
+				v[i] = new(big.Int).Mul(u[i], pow(a(2)))
+			}
+			regs = append(regs, v)
+		case "idx":
+			if a(1) >= len(regs) {
+				return nil, "err badreg"
+			}
+			u := regs[a(1)]
+			if a(2) >= len(u) {
+				return nil, "panic index"
+			}
+			regs = append(regs, []*big.Int{new(big.Int).Set(u[a(2)])})
+		}
+	}
+	return regs, ""
+}
+
+// runLhist executes a program over integer-list registers. "lit" builds a fresh list with spare
+// capacity, "sub" is a Go sub-slice sharing its parent's array (so a helper that appends into
+// or filters its argument in place disturbs the parent), "sort" sorts its register in place and
+// yields a harness-made copy, "minmax" keeps the two pointers MinMax returns.
+func runLhist(prog string) string {
+	var regs [][]*big.Int
+	for _, ins := range strings.Split(prog, ";") {
+		f := strings.Split(ins, ":")
+		a := func(k int) int { return lib.Atoi(f[k]) }
+		if f[0] != "lit" && a(1) >= len(regs) {
+			return "err badreg"
+		}
+		switch f[0] {
+		case "lit":
+			l := lib.ParseHexList(f[1])
+			s := make([]*big.Int, len(l), len(l)+3)
+			copy(s, l)
+			regs = append(regs, s)
+		case "clone":
+			regs = append(regs, verifhook.BigintsClone(regs[a(1)]))
+		case "unique":
+			regs = append(regs, verifhook.BigintsUnique(regs[a(1)]))
+		case "sort":
+			verifhook.BigintsSort(regs[a(1)])
+			regs = append(regs, append([]*big.Int(nil), regs[a(1)]...))
+		case "concat", "merge":
+			if a(2) >= len(regs) {
+				return "err badreg"
+			}
+			if f[0] == "concat" {
+				regs = append(regs, verifhook.BigintsConcat(regs[a(1)], regs[a(2)]))
+			} else {
+				regs = append(regs, verifhook.BigintsMergeUnique(regs[a(1)], regs[a(2)]))
+			}
+		case "insert":
+			regs = append(regs, verifhook.BigintsInsertSortedUnique(regs[a(1)], phx(f[2])))
+		case "sub":
+			u := regs[a(1)]
+			if a(2) > a(3) || a(3) > len(u) {
+				return "err badreg"
+			}
+			regs = append(regs, u[a(2):a(3)])
+		case "minmax":
+			u := regs[a(1)]
+			if a(2) >= len(u) || a(3) >= len(u) {
+				return "err badreg"
+			}
+			mn, mx := verifhook.BigintMinMax(u[a(2)], u[a(3)])
+			regs = append(regs, []*big.Int{mn, mx})
+		default:
+			panic("unknown lhist instruction " + ins)
+		}
+	}
+	return fmtRegs(regs)
+}
+
+// lref is the reference state of an lhist program: immutable values plus which registers share
+// an array through "sub" (sorting those in place is outside the stream's contract).
+type lref struct {
+	regs    [][]*big.Int
+	shared  []bool
+	unspec  bool // a helper was used outside its precondition: no mathematical value
+	badline string
+}
+
+func sortedInts(l []*big.Int) []*big.Int {
+	s := lib.CloneInts(l)
+	for i := 1; i < len(s); i++ { // insertion sort, the harness's own
+		for j := i; j > 0 && s[j-1].Cmp(s[j]) > 0; j-- {
+			s[j-1], s[j] = s[j], s[j-1]
+		}
+	}
+	return s
+}
+
+func (st *lref) step(ins string) {
+	f := strings.Split(ins, ":")
+	a := func(k int) int { return lib.Atoi(f[k]) }
+	push := func(l []*big.Int, sh bool) { st.regs = append(st.regs, l); st.shared = append(st.shared, sh) }
+	if f[0] != "lit" && a(1) >= len(st.regs) {
+		st.badline = "err badreg"
+		return
+	}
+	switch f[0] {
+	case "lit":
+		push(lib.ParseHexList(f[1]), false)
+	case "clone":
+		push(lib.CloneInts(st.regs[a(1)]), false)
+	case "unique":
+		push(dedup(lib.CloneInts(st.regs[a(1)])), false)
+	case "sort":
+		if st.shared[a(1)] {
+			st.unspec = true
+		}
+		st.regs[a(1)] = sortedInts(st.regs[a(1)])
+		push(lib.CloneInts(st.regs[a(1)]), false)
+	case "concat", "merge":
+		if a(2) >= len(st.regs) {
+			st.badline = "err badreg"
+			return
+		}
+		u, v := st.regs[a(1)], st.regs[a(2)]
+		if f[0] == "concat" {
+			push(append(lib.CloneInts(u), lib.CloneInts(v)...), false)
+		} else {
+			if !isSD(u) || !isSD(v) {
+				st.unspec = true
+			}
+			push(dedup(sortedInts(append(lib.CloneInts(u), v...))), false)
+		}
+	case "insert":
+		u := st.regs[a(1)]
+		if !isSD(u) {
+			st.unspec = true
+		}
+		push(dedup(sortedInts(append(lib.CloneInts(u), phx(f[2])))), false)
+	case "sub":
+		u := st.regs[a(1)]
+		if a(2) > a(3) || a(3) > len(u) {
+			st.badline = "err badreg"
+			return
+		}
+		st.shared[a(1)] = true
+		push(lib.CloneInts(u[a(2):a(3)]), true)
+	case "minmax":
+		u := st.regs[a(1)]
+		if a(2) >= len(u) || a(3) >= len(u) {
+			st.badline = "err badreg"
+			return
+		}
+		x, y := u[a(2)], u[a(3)]
+		if x.Cmp(y) > 0 {
+			x, y = y, x
+		}
+		push([]*big.Int{new(big.Int).Set(x), new(big.Int).Set(y)}, false)
+	}
+}
+
+func refLhist(prog string) *lref {
+	st := &lref{}
+	for _, ins := range strings.Split(prog, ";") {
+		st.step(ins)
+		if st.badline != "" {
+			break
+		}
+	}
+	return st
+}
+
+func genHist(thorough bool, nrand int, r *lib.Rand, emit func(string)) {
+	// vectors, exhaustive: registers e0, e1, zero of dimension 2, then every sequence of three
+	// operations (four in thorough) from {add ra rb, lsh ra 1} over all registers so far
+	depth := 3
+	if thorough {
+		depth = 4
+	}
+	var rec func(prog []string, k, d int)
+	rec = func(prog []string, k, d int) {
+		if d == 0 {
+			emit("vhist " + strings.Join(prog, ";"))
+			return
+		}
+		for a := 0; a < k; a++ {
+			for b := 0; b < k; b++ {
+				rec(append(prog[:len(prog):len(prog)], fmt.Sprintf("add:%d:%d", a, b)), k+1, d-1)
+			}
+			rec(append(prog[:len(prog):len(prog)], fmt.Sprintf("lsh:%d:1", a)), k+1, d-1)
+		}
+	}
+	rec([]string{"basis:2:0", "basis:2:1", "new:2"}, 3, depth)
+	// vectors, random: dimensions 1..4, shifts at the limb boundary, occasional length mismatch
+	// and out-of-range Idx (panics), basis index outside the vector
+	for t := 0; t < 6*nrand; t++ {
+		n := r.Range(1, 4)
+		var prog []string
+		var dims []int
+		cons := func() {
+			d := n
+			if r.Chance(1, 25) {
+				d = r.Range(0, 4)
+			}
+			if r.Chance(1, 4) {
+				prog = append(prog, fmt.Sprintf("new:%d", d))
+			} else {
+				i := r.Intn(d + 1)
+				if d > 0 && !r.Chance(1, 15) {
+					i = r.Intn(d)
+				}
+				prog = append(prog, fmt.Sprintf("basis:%d:%d", d, i))
+			}
+			dims = append(dims, d)
+		}
+		for k, m := 0, r.Range(1, 3); k < m; k++ {
+			cons()
+		}
+		for k, m := 0, r.Range(2, 9); k < m; k++ {
+			a := r.Intn(len(dims))
+			switch c := r.Intn(20); {
+			case c < 11:
+				b := r.Intn(len(dims))
+				if r.Chance(1, 3) && len(prog) > 0 { // repeat the previous operand pair: "add u e_i" twice
+					if f := strings.Split(prog[len(prog)-1], ":"); f[0] == "add" {
+						a, b = lib.Atoi(f[1]), lib.Atoi(f[2])
+					}
+				}
+				if dims[a] != dims[b] && !r.Chance(1, 4) {
+					b = a
+				}
+				prog = append(prog, fmt.Sprintf("add:%d:%d", a, b))
+				dims = append(dims, dims[a])
+				if dims[a] != dims[b] {
+					k = m // panics here
+				}
+			case c < 16:
+				prog = append(prog, fmt.Sprintf("lsh:%d:%d", a, []int{0, 1, 2, 3, 31, 63, 64, 65, 127}[r.Intn(9)]))
+				dims = append(dims, dims[a])
+			case c < 18:
+				j := r.Intn(dims[a] + 1)
+				if dims[a] > 0 && !r.Chance(1, 8) {
+					j = r.Intn(dims[a])
+				}
+				prog = append(prog, fmt.Sprintf("idx:%d:%d", a, j))
+				dims = append(dims, 1)
+				if j >= dims[a] {
+					k = m
+				}
+			default:
+				cons()
+			}
+		}
+		emit("vhist " + strings.Join(prog, ";"))
+	}
+
+	// lists, template over every small list: sub-slices with spare capacity behind them, two
+	// concats on the same prefix, clone/sort/unique/insert/merge chain, everything re-read
+	allLists([]int64{0, 1, 2}, 4, nil, func(l []int64) {
+		allLists([]int64{0, 3}, 2, nil, func(m []int64) {
+			h := len(l) / 2
+			emit(fmt.Sprintf("lhist lit:%s;lit:%s;sub:0:0:%d;concat:2:1;concat:2:0;concat:0:1;concat:0:0;clone:0;sort:7;unique:8;insert:9:1;merge:9:10;unique:0;unique:2;merge:9:9;clone:2;insert:9:7",
+				enc(l), enc(m), h))
+		})
+	})
+	// lists, random programs; merge/insert only on strictly ascending registers, sort never on
+	// a register that shares its array through sub
+	for t := 0; t < 6*nrand; t++ {
+		st := &lref{}
+		var prog []string
+		do := func(ins string) { prog = append(prog, ins); st.step(ins) }
+		lit := func() {
+			n := r.Range(0, 5)
+			l := make([]int64, n)
+			for i := range l {
+				l[i] = int64(r.Range(-2, 5))
+			}
+			if r.Chance(1, 3) {
+				sort.Slice(l, func(i, j int) bool { return l[i] < l[j] })
+			}
+			do("lit:" + enc(l))
+		}
+		for k, m := 0, r.Range(1, 3); k < m; k++ {
+			lit()
+		}
+		for k, m := 0, r.Range(3, 9); k < m; k++ {
+			n := len(st.regs)
+			a, b := r.Intn(n), r.Intn(n)
+			var sds []int
+			for i, l := range st.regs {
+				if isSD(l) {
+					sds = append(sds, i)
+				}
+			}
+			switch c := r.Intn(20); {
+			case c < 3:
+				do(fmt.Sprintf("clone:%d", a))
+			case c < 7:
+				if r.Chance(1, 3) && len(prog) > 0 { // the same first operand as the previous concat
+					if f := strings.Split(prog[len(prog)-1], ":"); f[0] == "concat" {
+						a = lib.Atoi(f[1])
+					}
+				}
+				do(fmt.Sprintf("concat:%d:%d", a, b))
+			case c < 9:
+				do(fmt.Sprintf("unique:%d", a))
+			case c < 11:
+				if !st.shared[a] {
+					do(fmt.Sprintf("sort:%d", a))
+					do(fmt.Sprintf("unique:%d", len(st.regs)-1))
+				}
+			case c < 13:
+				lo := r.Intn(len(st.regs[a]) + 1)
+				hi := lo + r.Intn(len(st.regs[a])-lo+1)
+				do(fmt.Sprintf("sub:%d:%d:%d", a, lo, hi))
+			case c < 16:
+				if len(sds) > 0 {
+					do(fmt.Sprintf("merge:%d:%d", sds[r.Intn(len(sds))], sds[r.Intn(len(sds))]))
+				}
+			case c < 18:
+				if len(sds) > 0 {
+					do(fmt.Sprintf("insert:%d:%s", sds[r.Intn(len(sds))], hx(big.NewInt(int64(r.Range(-3, 6))))))
+				}
+			case c < 19:
+				if len(st.regs[a]) > 0 {
+					do(fmt.Sprintf("minmax:%d:%d:%d", a, r.Intn(len(st.regs[a])), r.Intn(len(st.regs[a]))))
+				}
+			default:
+				lit()
+			}
+		}
+		emit("lhist " + strings.Join(prog, ";"))
+	}
 }
 
 // ---- oracle: the mathematical definitions, written independently ----
@@ -641,6 +1067,10 @@ func oracle(c, res string) string {
 			}
 		case "basisidx":
 			if res == "panic index" && lib.Atoi(f[3]) >= lib.Atoi(f[1]) {
+				return ""
+			}
+		case "vhist":
+			if _, want := refVhist(f[1]); want == res {
 				return ""
 			}
 		}
@@ -962,18 +1392,125 @@ func oracle(c, res string) string {
 		if payload != want {
 			return "basis Idx wrong"
 		}
+	case "vhist":
+		regs, want := refVhist(f[1])
+		if want == "" {
+			want = fmtRegs(regs)
+		}
+		if res != want {
+			return "a register does not hold its mathematical value at the end: want " + want
+		}
+	case "lhist":
+		st := refLhist(f[1])
+		if st.unspec {
+			return "" // out of range
+		}
+		want := st.badline
+		if want == "" {
+			want = fmtRegs(st.regs)
+		}
+		if res != want {
+			return "a register does not hold its mathematical value at the end: want " + want
+		}
 	default:
 		return "no oracle for " + f[0]
 	}
 	return ""
 }
 
+// ---- neighbours (hunt mode): same function, perturbed arguments ----
+
+// argKinds: d = decimal, x = hex integer, n = non-negative hex integer, l = hex list, b = byte string.
+var argKinds = map[string]string{
+	"pow2": "d", "ones": "d", "mask": "dd", "ispow2": "x", "pow2upto": "x", "bitsset": "x", "bytesle": "x",
+	"uint64s": "n", "minmax": "xx", "extract": "xdd", "hex": "b", "binary": "b", "sort": "l", "unique": "l",
+	"clone": "l", "vnew": "d", "index": "xl", "contains": "xl", "containssorted": "xl", "insert": "lx",
+	"merge": "ll", "concat": "ll", "vadd": "ll", "vlsh": "ld", "basis": "dd", "basisidx": "ddd",
+}
+
+func neighbours(c string, r *lib.Rand, emit func(string)) {
+	f := strings.Split(c, " ")
+	if f[0] == "vhist" || f[0] == "lhist" {
+		// every prefix (registers only refer backwards, so prefixes stay well-formed) and the
+		// program with each instruction repeated at the end
+		ins := strings.Split(f[1], ";")
+		for k := 1; k <= len(ins); k++ {
+			emit(f[0] + " " + strings.Join(ins[:k], ";"))
+		}
+		for _, i := range ins {
+			if !strings.HasPrefix(i, "sort:") {
+				emit(f[0] + " " + f[1] + ";" + i)
+			}
+		}
+		return
+	}
+	kinds, ok := argKinds[f[0]]
+	if !ok || len(kinds) != len(f)-1 {
+		return
+	}
+	with := func(k int, v string) {
+		g := append([]string{}, f...)
+		g[k] = v
+		emit(strings.Join(g, " "))
+	}
+	ints := func(x *big.Int, nonneg bool) []*big.Int {
+		out := []*big.Int{new(big.Int).Add(x, one), new(big.Int).Sub(x, one), new(big.Int).Lsh(x, 1), new(big.Int).Rsh(x, 1),
+			new(big.Int).Neg(x), new(big.Int).Xor(x, pow(r.Intn(x.BitLen()+2)))}
+		var keep []*big.Int
+		for _, y := range out {
+			if !nonneg || y.Sign() >= 0 {
+				keep = append(keep, y)
+			}
+		}
+		return keep
+	}
+	for k := 1; k < len(f); k++ {
+		switch kinds[k-1] {
+		case 'd':
+			v := lib.Atoi(f[k])
+			for _, w := range []int{v - 1, v + 1, v / 2, v + 64} {
+				if w >= 0 && w <= 2000 {
+					with(k, fmt.Sprint(w))
+				}
+			}
+		case 'x', 'n':
+			for _, y := range ints(phx(f[k]), kinds[k-1] == 'n') {
+				with(k, hx(y))
+			}
+		case 'l':
+			l := lib.ParseHexList(f[k])
+			for i := range l {
+				with(k, lib.HexList(append(append([]*big.Int{}, l[:i]...), l[i+1:]...))) // drop
+				for _, y := range ints(l[i], false)[:2] {
+					m := append([]*big.Int{}, l...)
+					m[i] = y
+					with(k, lib.HexList(m))
+				}
+				with(k, lib.HexList(append(append([]*big.Int{}, l[:i+1]...), l[i:]...))) // duplicate
+			}
+			with(k, lib.HexList(sortedInts(l)))
+		case 'b':
+			b := lib.ParseBytes(f[k])
+			for i := 0; i <= len(b); i++ {
+				with(k, lib.Bytes(append(append(append([]byte{}, b[:i]...), '_'), b[i:]...)))
+				if i < len(b) {
+					with(k, lib.Bytes(append(append([]byte{}, b[:i]...), b[i+1:]...)))
+					m := append([]byte{}, b...)
+					m[i] = "0123456789abcdefABCDEFgG-+ _"[r.Intn(28)]
+					with(k, lib.Bytes(m))
+				}
+			}
+		}
+	}
+}
+
 func main() {
 	lib.Main(lib.Prop{
-		ID:     "C19",
-		Gen:    gen,
-		Run:    run,
-		Oracle: oracle,
+		ID:         "C19",
+		Neighbours: neighbours,
+		Gen:        gen,
+		Run:        run,
+		Oracle:     oracle,
 		Nontrivial: func(c, res string) bool {
 			// the result is not the degenerate one (empty list, zero, false on an empty input)
 			if strings.HasPrefix(res, "panic") || res == "err parse" {
@@ -982,13 +1519,12 @@ func main() {
 			return res != "ok -" && res != "ok 0" && !strings.HasSuffix(c, " -")
 		},
 		PanicClass: func(v interface{}) string {
-			if s, ok := v.(string); ok {
-				switch {
-				case strings.Contains(s, "length mismatch"):
-					return "lenmismatch"
-				case strings.Contains(s, "index out of range"):
-					return "index"
-				}
+			s := fmt.Sprint(v) // package panics are strings, slice index panics runtime errors
+			switch {
+			case strings.Contains(s, "length mismatch"):
+				return "lenmismatch"
+			case strings.Contains(s, "index out of range"):
+				return "index"
 			}
 			return "other"
 		},
